@@ -1,6 +1,6 @@
 (* C11 — EDF round trip: what encodes, decodes to the same value.
    Property theorems only; definitions in Edf/Model.v, proofs in Edf/Proofs.v. *)
-From Ergo Require Import Common.Base Common.Bytes Common.Codec Edf.Model Edf.Proofs Edf.Negotiate Edf.NegotiateProofs Edf.Flag Edf.FlagProofs.
+From Ergo Require Import Common.Base Common.Bytes Common.Codec Edf.Model Edf.Proofs Edf.Negotiate Edf.NegotiateProofs Edf.Flag Edf.FlagProofs Edf.Window Edf.WindowProofs.
 Local Open Scope N_scope.
 
 (* For every option set a handshake can produce (unique cache ids in their ranges), every type and
@@ -258,3 +258,31 @@ Example C11_flag_example :
   enc_s all_resets 8 fw_opts TAny (any_str [120]) [false; false] = Ok ([141; 0; 1; 120], [true]).
 Proof. exact flag_example. Qed.
 Print Assumptions C11_flag_example.
+
+(* ---- registries growing DURING a handshake (Edf/Window.v; net/handshake/start.go, accept.go) ----------
+   A party announces a snapshot of its atom / type-name / error tables and builds its encode caches from
+   that snapshot; the peer builds its decode caches from the announcement. For every snapshot and every
+   later state of the registry the two ends hold the same association list (the hypothesis of the
+   round-trip theorems above), so every id the encoder may emit resolves to the same name at the peer *)
+Theorem C11_window_same_list : forall snap later,
+  hs_encode_cache snap later = hs_peer_decode_cache snap.
+Proof. exact window_same_list. Qed.
+Print Assumptions C11_window_same_list.
+
+Theorem C11_window_agree : forall snap later,
+  NoDup (map fst snap) -> agree (hs_encode_cache snap later) (hs_peer_decode_cache snap).
+Proof. exact window_agree. Qed.
+Print Assumptions C11_window_agree.
+
+(* reading the registry again when the options are built is wrong as soon as one registration falls
+   between the two reads *)
+Theorem C11_window_fresh_refuted :
+  exists snap later, extends snap later /\
+    ~ agree (hs_encode_cache_fresh snap later) (hs_peer_decode_cache snap).
+Proof. exact window_fresh_refuted. Qed.
+Print Assumptions C11_window_fresh_refuted.
+
+Example C11_window_nontrivial :
+  extends ex_snap ex_later /\ ex_snap <> ex_later /\ agree (hs_encode_cache ex_snap ex_later) (hs_peer_decode_cache ex_snap).
+Proof. exact window_agree_nontrivial. Qed.
+Print Assumptions C11_window_nontrivial.
